@@ -50,6 +50,14 @@ Definition all_types (r : robot) : Prop :=
      typed_hints (k_init_hints (c_class d)) /\ typed_hints (k_hints (c_class d))) /\
   (forall md, In md (r_modes r) -> typed_hints (m_hints md)).
 
+Lemma typed_hints_by_computation l :
+  forallb (fun nh => match hint_type (snd nh) with Some _ => true | None => false end) l = true ->
+  typed_hints l.
+Proof.
+  intros H n h HI. rewrite forallb_forall in H. specialize (H _ HI). simpl in H.
+  destruct (hint_type h); [discriminate|discriminate H].
+Qed.
+
 (* ====================================================================== *)
 (* Generic list facts                                                      *)
 (* ====================================================================== *)
